@@ -145,9 +145,26 @@ async fn scripted(ctx: &mut Ctx, nclients: usize, nworkers: usize, per: u32, cap
             acts.push((3, 0));
             acts.push((3, 0));
         }
+        // a client (or worker) stops reading for a while: the proxy may wait for it, but
+        // whatever it forwards must arrive whole once the peer reads again
+        for (i, c) in clients.iter().enumerate() {
+            if c.conn.credit().is_none() && r.chance(1, 40) {
+                acts.push((5, i));
+            }
+            if c.conn.credit().is_some() {
+                acts.push((6, i));
+            }
+        }
         let (a, i) = *r.pick(&acts);
         trace = mix(trace ^ ((a as u64) << 8 | i as u64));
         match a {
+            5 => {
+                clients[i].conn.set_credit(Some(*r.pick(&[0usize, 1, 9, 30, 300])));
+                ctx.count("clients_not_reading_for_a_while");
+            }
+            6 => {
+                clients[i].conn.set_credit(None);
+            }
             0 => {
                 let mut wire = vec![vec![]];
                 wire.extend(rc::tagged(i as u16, sent[i], SHAPES[r.below(SHAPES.len())]));
@@ -190,6 +207,12 @@ async fn scripted(ctx: &mut Ctx, nclients: usize, nworkers: usize, per: u32, cap
                     }
                 } else {
                     sim::settle().await;
+                    if !px.woken() && clients.iter().any(|c| c.conn.credit().is_some()) {
+                        for c in &clients {
+                            c.conn.set_credit(None);
+                        }
+                        continue;
+                    }
                     if !px.woken()
                         && clients.iter().all(|c| c.conn.held() == 0)
                         && workers.iter().all(|w| w.conn.held() == 0)
@@ -204,6 +227,10 @@ async fn scripted(ctx: &mut Ctx, nclients: usize, nworkers: usize, per: u32, cap
             }
         }
     }
+    for c in &clients {
+        c.conn.set_credit(None);
+    }
+    sim::settle().await;
     // ---- a client goes away and comes back under its identity (a restarted instance);
     // its next request must be answered on the new connection
     let mut reconnected: Option<Peer> = None;
@@ -547,11 +574,11 @@ impl Prop for C15 {
         let mut v = Vec::new();
         for nc in 1..=4usize {
             for nw in 1..=3usize {
-                for k in 0..tier.pick(60, 600) {
+                for k in 0..tier.pick(60, 6000) {
                     v.push(json!({"kind": "scripted", "clients": nc, "workers": nw, "per": 5, "capture": k % 2 == 0,
                                   "seed": mix(seed ^ 0xC15 ^ (k as u64) << 8 ^ (nc * 10 + nw) as u64)}));
                 }
-                for k in 0..tier.pick(20, 200) {
+                for k in 0..tier.pick(20, 2000) {
                     v.push(json!({"kind": "chain", "clients": nc, "workers": nw, "per": 6, "capture": k % 2 == 1,
                                   "seed": mix(seed ^ 0x1C15 ^ (k as u64) << 8 ^ (nc * 10 + nw) as u64)}));
                 }
@@ -584,6 +611,7 @@ impl Prop for C15 {
 
     fn floors(&self, _tier: Tier) -> Vec<(&'static str, u64)> {
         vec![
+            ("clients_not_reading_for_a_while", 50),
             ("scripted_runs", 100),
             ("chain_runs", 40),
             ("requests_forwarded", 1000),
